@@ -4,6 +4,7 @@ import (
 	"image"
 	"image/color"
 	"sync"
+	"sync/atomic"
 
 	prismlinear "github.com/mandykoh/prism/linear"
 
@@ -70,6 +71,37 @@ func VerifHarness_C11_Workers() {
 	prismlinear.TransformImageColor(dst, src, 3, f)
 	verifLogEnd()
 	verifReach("logged")
+}
+
+// VerifHarness_C11_NativeWorkers (native replay only, also run under the race detector):
+// the same transform as VerifHarness_C11_Workers. Besides what the race detector may
+// report, it counts how often the per-colour function is applied: more applications
+// than pixels means two unsynchronised workers handled - and wrote - the same pixel.
+func VerifHarness_C11_NativeWorkers() {
+	kind := verifChoice(3)
+	for rep := 0; rep < 20; rep++ {
+		src := image.NewRGBA64(image.Rect(0, 0, 2, 4))
+		var dst interface {
+			image.Image
+			Set(x, y int, c color.Color)
+		}
+		switch kind {
+		case 0:
+			dst = image.NewRGBA64(image.Rect(0, 0, 2, 4))
+		case 1:
+			dst = image.NewRGBA(image.Rect(0, 0, 2, 4))
+		default:
+			dst = image.NewNRGBA(image.Rect(0, 0, 2, 4))
+		}
+		var calls int64
+		f := func(c color.Color) color.RGBA64 {
+			atomic.AddInt64(&calls, 1)
+			r, g, b, a := c.RGBA()
+			return color.RGBA64{uint16(r), uint16(g), uint16(b), uint16(a)}
+		}
+		prismlinear.TransformImageColor(dst, src, 3, f)
+		verifAssert(calls == 8, "race: a pixel was handled by more than one worker goroutine (or not at all)")
+	}
 }
 
 // VerifHarness_C11_NativeRace (native replay only, run under the race detector in a fresh
